@@ -3,6 +3,7 @@
 import json, os, subprocess, sys
 ROOT = os.path.dirname(os.path.dirname(os.path.abspath(__file__)))
 pid, demo_dest, demo_pkg, tests = sys.argv[1], sys.argv[2], sys.argv[3], sys.argv[4:]
+first = int(os.environ.get("SEED_FIRST", "1"))
 lc = pid.lower()
 os.makedirs("/tmp/seed/out", exist_ok=True)
 wt = "/tmp/seed/%sa" % lc
@@ -18,6 +19,12 @@ if os.path.exists(kf):
             w = f.get("witness", {})
             pre.append("- " + f["what"][:300] + (("  e.g. " + str(w.get("program"))[:200]) if isinstance(w, dict) and w.get("program") else ""))
 pre = pre[:40]
+import glob
+done = []
+for d in sorted(glob.glob(os.path.join(ROOT, "seeded", pid + "-*"))):
+    m = json.load(open(os.path.join(d, "meta.json")))
+    done.append("- " + (m.get("breaks") or m.get("summary") or "")[:260].replace("\n", " "))
+nums = "{%d,%d,%d}" % (first, first + 1, first + 2)
 text = f"""You are helping test a verification framework by writing realistic *bug-introducing* changes ("seeded defects") to a Go project. Work ONLY inside the git worktree {wt} (a checkout of github.com/ohler55/slip, a Common-Lisp interpreter in Go). Do not touch /repo or /verif and do not read anything under /verif.
 
 Environment: run Go with `export GOFLAGS=-mod=mod GOPROXY=off` (do NOT set GOSUMDB or GOTOOLCHAIN). No network. Never run the `slip` CLI binary directly (it drops into a REPL and blocks); write Go tests instead. The project's tests live under ./test/... (./test/ is `package test` for the root package; ./test/cl is package `cl_test` for pkg/cl, idiom `(&sliptest.Function{{Source: "(car '(1 2))", Expect: "1"}}).Test(t)`; other packages likewise: ./test/clos, ./test/flavors, ./test/generic, ./test/gi, ./test/bag ...; look at an existing test file in the destination directory for the package name and idiom). `go build ./...` fails on the pristine tree because of two plugin mains; use `go build . ./pkg/... ./cmd/...`. Always run things under `timeout`. On the pristine tree `go test ./test/cl/` has one test that panics and aborts the package (TestRequireLoadPath): run with `-skip TestRequireLoadPath`, where only TestRequireNotReadable fails (environment); `go test ./test/` fails only TestAppRunGenerate, TestAppRunGenerateCleanup, TestAppRunPrepare; ./test/gi aborts in TestMakeApp* / TestSnapshotRequire, ./test/repl fails TestHistoryAdd and TestStashAdd, ./test/flavors fails TestFlavorGoMakeOnly (all environment).
@@ -27,14 +34,17 @@ The property under test (JSON) is in /tmp/seed/{lc}.prop.txt — read it careful
 Pre-existing defects of the unchanged tree that you must NOT re-introduce, rely on or build upon (choose paths that currently behave correctly):
 {chr(10).join(pre) if pre else "- (none recorded)"}
 
+Changes of this kind that were already written in an earlier round (choose DIFFERENT mechanisms, files or code paths; do not repeat these):
+{chr(10).join(done) if done else "- (none)"}
+
 Task: produce THREE different, independent changes to the slip source (each as its own patch against the pristine worktree HEAD) that each BREAK this property while (a) the project still compiles (`go build . ./pkg/... ./cmd/...`), and (b) the existing tests still pass exactly as on the pristine tree: {"; ".join("`go test -vet=off -count=1 " + t + "`" for t in tests)} (record the pristine failures first; no additional test may fail). Prefer changes that need something specific to manifest — a particular shape of input, a boundary value, nil / 0 / empty, a second element, a particular order of operations or history — not changes that ordinary use exposes at once. Make them look like plausible refactoring / optimisation mistakes a maintainer could make. Spread the three changes over different mechanisms named in the property's anchors.
 
-For each change N in {{1,2,3}} write into /tmp/seed/out/{lc}-N/ :
+For each change N in {nums} write into /tmp/seed/out/{lc}-N/ :
   - patch.diff  : `git diff` of the source change against HEAD (not the demo)
   - demo_test.go : a Go test (package {demo_pkg}, destination {demo_dest}/) with a test function whose name starts with Test{pid}Seed that FAILS with the change and PASSES without it
   - meta.json : {{"property":"{pid}","summary":"...","needs_to_manifest":"...","files_changed":[...],"demo_dest":"{demo_dest}","demo_run_regex":"Test{pid}Seed","ran":["commands you ran and their outcome"]}}
 After writing each patch, reset the worktree (`git -C {wt} checkout -- . && git -C {wt} clean -fd`) so patches are independent. Verify each yourself: apply patch → existing tests as on pristine, demo fails; revert → demo passes.
 
 Report back a short summary of the three changes (one paragraph each) and confirm the files exist."""
-open("/tmp/seed/prompt-%s.txt" % lc, "w").write(text)
+open("/tmp/seed/prompt-%s.txt" % lc, "w").write(text.replace("{nums}", nums))
 print("/tmp/seed/prompt-%s.txt" % lc, len(text))
